@@ -106,6 +106,38 @@ def binary_family(rng, ctx, tmp, quick, fmt, k):
         def objs(r):
             return [r]
         known = 'gfms: ' + KNOWN_TAIL
+    elif fmt == 'msE':
+        dn, nn, tmax, eps, L, xmin = 1, 2, 3, 0.02, 2, int(k % 2)
+        plaq = bool((k // 2) % 2)
+        replicas = {r: [(cfg, [[[c17.valn(r, cfg, 100 * o + 10 * fl + t) for t in range(tmax)] for fl in range(nn + 1)] for o in range(3)]) for cfg in cl[r]] for r in idxs}
+        desc = w_oq.write_ms_openqcd(d, 'ens', replicas, dn, nn, tmax, eps)
+        par = {'xmin': xmin, 'L': L}
+
+        def read():
+            return pe.input.openQCD._extract_flowed_energy_density(d, 'ens', 1, xmin, L, **({'plaquette': True} if plaq else {}))
+
+        def payload(p):
+            return [[rat(x) for x in row] for row in p[0 if plaq else 1]]
+
+        def objs(r):
+            return [r[t] for t in sorted(r)]
+        known = 'ms.dat action density: ' + KNOWN_TAIL
+    elif fmt == 'pbp':
+        nfct, nsrc = [2], [2]
+        replicas = {r: [(cfg, [[([c17.valn(r, cfg, 10 * f + s) for s in range(nsrc[0])], [c17.valn(r, cfg, 500 + 10 * f + s) for s in range(nsrc[0])]) for f in range(nfct[0])]])
+                        for cfg in cl[r]] for r in idxs}
+        desc = w_oq.write_pbp(d, 'ens', replicas, nfct, nsrc)
+        par = {'none': 0}
+
+        def read():
+            return pe.input.misc.read_pbp(d, 'ens')
+
+        def payload(p):
+            return [[[[rat(x) for x in blk] for blk in f] for f in a] for a in p]
+
+        def objs(r):
+            return list(r)
+        known = 'pbp: ' + KNOWN_TAIL
     else:  # ms5
         tmax, corr, qc = 2, ['gA', 'lTt', 'g1'][k % 3], 'dd'
         replicas = {}
@@ -301,7 +333,7 @@ def run(ctx):
     tmp = tlc.scratch('verif.c18.')
     cases, exports = [], []
     try:
-        for fmt in ('rwms', 'qtop', 'gfms', 'ms5'):
+        for fmt in ('rwms', 'qtop', 'gfms', 'ms5', 'msE', 'pbp'):
             for k in range(2 if q else 6):
                 cases += binary_family(rng, ctx, tmp, q, fmt, k)
         for k in range(3 if q else 6):
